@@ -2,12 +2,12 @@
 from . import common as C
 
 MANIFEST = dict(
-   technique="Lean 4 proof over store models with caller-visible value graphs (cells for maps / slices / pointees, value-typed aggregate nodes for structs and arrays held by value; reach / ser / deep copy / rebuild / assign) + correspondence: a type-directed generator of Go value graphs drives (i) by-value inputs through Parse / ParseAny / StrictParse of generated schema trees with digests (contents + addresses, spare capacity included) of every cell of the input graph, (ii) typed default / prefault values through random Parse(nil) / deep-mutation histories over families of schemas sharing the value, (iii) pointers through Parse / StrictParse",
-   text="For the code as it is (deepCloneValue clones maps, slices, pointees and, field by field, structs and arrays): g_copyOK (the deep copy of any graph with value-typed aggregates, to any depth, consists of fresh cells only, looks exactly like the original and writes nothing that existed), g_result_fresh (Parse(nil): everything reachable from the returned default / prefault is fresh), g_assign_frame and g_hist (any interleaving of Parse(nil) calls on a family of schemas and stores of arbitrary contents into cells outside the schema-owned region leaves every default graph, hence every later result, looking the same), g_parse_mutate_parse (Parse(nil), change every scalar of every reachable cell at any nesting and add entries, Parse(nil): same look; no side conditions), g_input_unchanged (Parse of a by-value input graph builds its result in fresh cells for EVERY rewriting of entries — strip, key canonicalisation, coercion — so every cell of the input holds what it held), plus the round-1 theorems over plain node graphs (copyOK, c15_result_fresh, c15_mut_frame, c15_hist, c15_input_unchanged, c15_same_pointer). Witnesses: bulk_agg_copy_shared (copying struct / array elements by assignment leaves the cells they refer to shared), today_nested_default_shared (one-level copy).",
+   technique="Lean 4 proof over store models with caller-visible value graphs (cells for maps / slices / pointees, value-typed aggregate nodes for structs and arrays held by value; reach / ser / deep copy / rebuild / assign) + correspondence: a type-directed generator of Go value graphs drives (i) by-value inputs through Parse / ParseAny / StrictParse of generated schema trees with digests (contents + addresses, spare capacity included) of every cell of the input graph, (ii) typed default / prefault values through random Parse(nil) / deep-mutation histories over families of schemas sharing the value, (iii) pointers through Parse / StrictParse, (iv) a schema language in which every schema-owned cell is explicit (literals over any with slice / map members, defaults, objects / slices / records / unions embedding them) through Parse - mutate - Parse histories over fresh equal copies of generated inputs, the Lean model predicting verdict, look, aliasing and the state of the schemas",
+   text="For the code as it is (deepCloneValue clones maps, slices, pointees and, field by field, structs and arrays): g_copyOK (the deep copy of any graph with value-typed aggregates, to any depth, consists of fresh cells only, looks exactly like the original and writes nothing that existed), g_result_fresh (Parse(nil): everything reachable from the returned default / prefault is fresh), g_assign_frame and g_hist (any interleaving of Parse(nil) calls on a family of schemas and stores of arbitrary contents into cells outside the schema-owned region leaves every default graph, hence every later result, looking the same), g_parse_mutate_parse (Parse(nil), change every scalar of every reachable cell at any nesting and add entries, Parse(nil): same look; no side conditions), g_input_unchanged (Parse of a by-value input graph builds its result in fresh cells for EVERY rewriting of entries — strip, key canonicalisation, coercion — so every cell of the input holds what it held), For EVERY schema-owned cell, not only defaults (Model/Owned.lean: parseS over any / String / literal-over-any / Default / Object strip-loose-strict / Slice / Record / Union, transcribed from validateLiteral, resolveDefault, validateObject, validateSlice, validateRecord): own_parse_ext (Parse of any value with any schema writes nothing that existed), own_result_fresh (every cell of a result was allocated by the call or is a cell of the caller's own input - never a literal member, a default or anything else a schema holds), own_mutate_reach (deep in-place mutation changes no reference), own_hist (ANY history of Parse calls with any schema of a family on newly built equal copies of any input, interleaved with deep mutation of any earlier result: every cell that existed at the start - all the schemas hold and the caller's original inputs - holds bit-for-bit what it held and every result consists of cells allocated since; no hypothesis about where the caller writes), own_hist_schema_look (every literal member / default looks the same and is still owned). Witness lit_member_shared (a literal that continues with its declared member hands out the schema's cell; one store through the result and an equal input is refused). Plus the round-1 theorems over plain node graphs (copyOK, c15_result_fresh, c15_mut_frame, c15_hist, c15_input_unchanged, c15_same_pointer). Witnesses: bulk_agg_copy_shared (copying struct / array elements by assignment leaves the cells they refer to shared), today_nested_default_shared (one-level copy).",
    note="Graphs are followed to 16 nested levels (the harness builds at most 13). The model of by-value container parsing (`rebuild`) abstracts what each schema type does to entries into an arbitrary function rw; that the real containers only read the input is established per case by the digests, not by translation of the Go code. g_hist takes the caller's stores to be outside the schema-owned region (discharged for results by g_result_fresh; g_parse_mutate_parse has no such hypothesis). StrictParse returning the caller's pointer is checked by the correspondence. Struct fields that are unexported stay shared in a cloned default (limit of deepCloneValue, not reachable by a caller outside the package). Trusted: Lean kernel, axioms propext/Classical.choice/Quot.sound, the Go harness (reflective generator, digests, mutator, graph encoder).",
    design="DESIGN.md §3.4, §5 C15; notes/C15.md")
 
-MODULES = ["Gozod.Proofs.C15", "Gozod.Proofs.C15Agg"]
+MODULES = ["Gozod.Proofs.C15", "Gozod.Proofs.C15Agg", "Gozod.Proofs.C15Own"]
 THEOREMS = [
     "Gozod.C15.c15_result_fresh", "Gozod.C15.copyOK", "Gozod.C15.c15_mut_frame", "Gozod.C15.c15_hist",
     "Gozod.C15.c15_input_unchanged", "Gozod.C15.c15_same_pointer", "Gozod.C15.graph_frame",
@@ -16,6 +16,9 @@ THEOREMS = [
     "Gozod.C15.g_copyOK", "Gozod.C15.g_result_fresh", "Gozod.C15.g_assign_frame", "Gozod.C15.g_hist",
     "Gozod.C15.g_graph_frame", "Gozod.C15.rebuild_ext", "Gozod.C15.g_input_unchanged", "Gozod.C15.bulk_agg_copy_shared",
     "Gozod.C15.mutateAll_ext", "Gozod.C15.g_parse_mutate_parse",
+    # every schema-owned cell (literal members, defaults of member schemas, embedded schemas): Model/Owned.lean
+    "Gozod.C15.owned_ext", "Gozod.C15.own_parse_ext", "Gozod.C15.own_result_fresh", "Gozod.C15.own_mutate_reach",
+    "Gozod.C15.own_hist", "Gozod.C15.own_hist_schema_look", "Gozod.C15.lit_member_shared",
 ]
 
 
@@ -61,6 +64,14 @@ def key(op, impl, M, S):
 
 
 def describe(op):
+    if C.op_body(op).split(" ")[1] == "own":
+        return ("own: <number of schema-owned cells m> <steps> | T <content ids of the string scalars> | schema ; schema ; ... | input ; input ; ... "
+                "schemas: T ::= any | str | lit k V^k | dflt V T | obj <s|l|x> k (key T)^k | slice T | rec T | union T T (harness/cmd/c15/own.go; the family is "
+                "root, root.Describe/RefineAny/Meta, Object{w:root}, Slice(root), Union(root|String) - all holding the same member / default cells, labels 1..m); "
+                "V = graph (R label k (key V)^k map/slice cell, B label = cell met before, S id scalar, Z nil); steps P<j>.<i> = Parse with schema j of a fresh "
+                "deep copy of input i, M<k> = deep in-place mutation of the k-th result; observation = <same|CHANGED per repeated (j,i)>|<fresh|ALIASED: a result "
+                "contains a cell the schemas hold (storex.SchemaAddrs, unexported fields included) that the caller did not pass in, or a cell of an earlier result>|"
+                "<schema-same|schema-written: storex.DeepHash of the family>|<a<look hash>|r for the first result of every (j,i)>; after '#': the root tree, shared=<the shared cell>")
     return ("after '#': <Base>.<variant> (harness/storex Bases(); variant = chaining call applied to the base), probe=<index into storex.Probes()>; "
             "ptr: a fresh pointer to the probe value goes through Parse / StrictParse; dflt: <Base>.<Default|Prefault>/<argument variant>, "
             "Parse(nil), deep mutation of the result, Parse(nil) on the schema and on schema.Describe(), mutate, Parse(nil); "
@@ -88,6 +99,11 @@ def run(res):
         "hist: every schema type (storex.Bases + 40 typed / shaped bases) × {Default, Prefault} × values generated from the parameter's Go type (typed composites to 13 nested levels): "
         "P0 M0 P0 + 5-8 random steps over the family {schema, Describe, Meta, Optional, Nilable, RefineAny, NonOptional, second schema given the same value, re-defaulted schema}; "
         "per later parse same/CHANGED, address disjointness of every result from the held value and from earlier results, digest of the held value, look of the first result vs the model. "
+        "own: 900 (40000) root schemas of the modelled language (any / String / LiteralOf[any] with slice and map members / Default / Object strip-loose-strict / Slice / Record / Union, depth 0-3) "
+        "+ the family around each (Describe-derived, Object{w:root}, Slice(root), Union(root|String)) x 2 generated inputs per member x histories P0.0 M0 P0.0 + 4-7 random P<j>.<i> / M<k> + closing parses "
+        "on fresh equal copies; the Lean model (parseS / stepC) predicts verdicts, looks, aliasing and schema state. val / reparse additionally draw state-holding leaves (Literal[any] / LiteralOf[any] / "
+        "LiteralTyped over composites of 11 Go types, their Optional / RefineAny / Default clones, FromJSONSchema const / enum / default with composite values) inside every container kind; reparse checks "
+        "the result against storex.SchemaAddrs (every cell reachable from the schema). "
         "ptr / dflt / reparse: the round-1 classes over storex.Probes(). distinct = distinct op bodies (graph shapes × histories).")
     res.assumptions += [
         "the reflective mutator reaches everything a caller could reach through exported maps, slices (up to cap), pointers, arrays and struct fields; values reachable only through a non-addressable copy are reached through the references they hold",
